@@ -330,7 +330,7 @@ structure ColSpec where
   prop : String
   names : List String
   unit : UnitSpec
-deriving Repr
+deriving Repr, DecidableEq
 
 def ofGenCol (c : Gen.AtomStyles.Col) : ColSpec :=
   { prop := c.1, names := c.2.1,
